@@ -55,7 +55,7 @@ def cases(draw, max_n):
         # re-schedule between two executions: new surface order taken from this order
         "resurface": draw(st.sampled_from([None, None, "dfs", "len", "table"])),
         # ... or transform the tree between the two executions
-        "between": draw(st.sampled_from([None, None, None, "reconf", "anneal", "sort"])),
+        "between": draw(st.sampled_from([None, None, None, "reconf", "anneal", "sort", "centralities"])),
         # astronomically large sizes (counts beyond 2**64; nothing is executed
         # then) handed over as python ints, numpy integers or a mixture
         "big": draw(st.sampled_from([0, 0, 0, 16, 22])),
@@ -312,6 +312,9 @@ def run_case(spec, sub=None):
                 ok, r = guarded(tree.subtree_reconfigure_, subtree_size=3, maxiter=1, select="random", seed=sd2)
             elif b_ == "anneal":
                 ok, r = guarded(tree.simulated_anneal_, tsteps=1, numiter=2, tstart=5.0, seed=sd2)
+            elif b_ == "centralities":
+                # (re-defines what the default 'surface_order' is)
+                ok, r = guarded(tree.compute_centralities, combine=["max", "min", "sum"][sd2 % 3])
             else:
                 ok, r = guarded(tree.sort_contraction_indices)
         if ok:
